@@ -264,7 +264,7 @@ theorem chunk_even (q n : Nat) (hq : 0 < q) (hn : 1 < n) :
 
 theorem roll_shape_one (s : Shape) (shift dim : Int) (a : Nat)
     (h0 : s.length ≠ 0) (hz : s.getD 0 0 ≠ 0) (ha : normAxis s.length dim = some a)
-    (hlen : (roll.stepIdx (s.getD a 0) (numel s) (roll.redShift (s.getD a 0) shift)).length = s.getD a 0) :
+    (hlen : (roll.stepIdx (s.getD a 0) INT64_MAX.toNat (roll.redShift (s.getD a 0) shift)).length = s.getD a 0) :
     roll.model s [shift] [dim] = some s := by
   unfold roll.model
   simp only [h0, hz, if_false, List.isEmpty_cons, List.zip_cons_cons, List.zip_nil_right, List.drop_succ_cons, List.drop_zero,
@@ -1491,7 +1491,7 @@ theorem all_dims_agrees (s : Shape) (ds : List Int) (keep : Bool) (out : Shape)
       | cons d ds' =>
         simp only [fold_reduce s (d :: ds') ax hr hm]
         cases keep
-        · simp only [Bool.false_eq_true, if_false] at h ⊢
+        · simp only [Bool.false_eq_true, if_false, hr, or_self] at h ⊢
           unfold squeezeOp normAxes
           rw [markOnes_length, hm]
           have hall : ax.all (fun a => (markOnes s ax).getD a 0 == 1) = true := by
@@ -1537,7 +1537,7 @@ theorem all_dims_agrees (s : Shape) (ds : List Int) (keep : Bool) (out : Shape)
             rw [markOnes_getElem]
             have hn : ¬ i ∈ ax := by simpa using hc
             simp [hn]
-        · simp only [if_true] at h ⊢
+        · simp only [if_true, true_or] at h ⊢
           exact h
 
 theorem knownProd_append (x y : List Int) : knownProd (x ++ y) = knownProd x * knownProd y := by
@@ -1897,5 +1897,1132 @@ theorem slice_scatter_agrees (s src : Shape) (dim : Int) (start stop : Option In
 theorem topk_agrees (s : Shape) (k dim : Int) (hr : s.length ≠ 0) : topk.model s k dim = topk.spec s k dim := by
   unfold topk.model topk.spec
   simp [hr]
+
+theorem numel_append (x y : Shape) : numel (x ++ y) = numel x * numel y := by
+  induction x with
+  | nil => simp [numel]
+  | cons a t ih => simp [numel, ih, Nat.mul_assoc]
+
+theorem numel_singleton (a : Nat) : numel [a] = a := by simp [numel]
+
+/-- the static target is a correct factorisation of the input -/
+theorem static_numel (s : Shape) (a b : Nat) (hab : a ≤ b) :
+    numel (s.take a ++ [numel ((s.take b).drop a)] ++ s.drop b) = numel s := by
+  have hs : s = s.take a ++ ((s.take b).drop a ++ s.drop b) := by
+    have h1 : s.take a ++ (s.take b).drop a = s.take b := by
+      have : s.take a = (s.take b).take a := by rw [List.take_take]; congr 1; omega
+      rw [this, List.take_append_drop]
+    rw [← List.append_assoc, h1, List.take_append_drop]
+  conv => rhs; rw [hs]
+  simp only [numel_append, numel_singleton, Nat.mul_assoc]
+
+theorem reshape_static (s tgt : Shape) (h : numel tgt = numel s) :
+    reshape true s (tgt.map (Int.ofNat ·)) = some tgt := by
+  obtain ⟨f1, f2⟩ := ofNat_list_facts tgt
+  rw [reshape_exact s _ f1 f2 (by rw [knownProd_ofNat, h])]
+  simp only [List.map_map]
+  have hid : (Int.toNat ∘ fun (x : Nat) => Int.ofNat x) = id := by funext x; simp
+  rw [hid, List.map_id]
+
+theorem pyBound_valid (r : Nat) (d : Int) (a : Nat) (h : normAxis r d = some a) : flatten.pyBound r d = a := by
+  obtain ⟨_, h2, h3⟩ := normAxis_some r d a h
+  unfold flatten.pyBound
+  split
+  · next hneg => simp only [hneg, if_true] at h2; omega
+  · next hneg => simp only [hneg, if_false] at h2; omega
+
+theorem flatten_general (s : Shape) (a b : Nat) (ha : a ≤ b) (hb : b < s.length) :
+    reshape true s ((s.take a ++ [numel ((s.take (b + 1)).drop a)] ++ s.drop (b + 1)).map (Int.ofNat ·))
+      = some (s.take a ++ [numel ((s.drop a).take (b - a + 1))] ++ s.drop (b + 1)) := by
+  rw [reshape_static s _ (static_numel s a (b + 1) (by omega))]
+  have : (s.take (b + 1)).drop a = (s.drop a).take (b - a + 1) := by
+    rw [List.drop_take]; congr 1; omega
+  rw [this]
+
+theorem normAxis_val (r : Nat) (d : Int) (a : Nat) (h : normAxis r d = some a) :
+    ((a : Int) = if d < 0 then d + (r : Int) else d) ∧ a < r := by
+  obtain ⟨h1, h2, h3⟩ := normAxis_some r d a h
+  refine ⟨?_, h3⟩
+  split
+  · next hneg => simp only [hneg, if_true] at h1 h2; omega
+  · next hneg => simp only [hneg, if_false] at h1 h2; omega
+
+theorem flatten_rank1 (x : Nat) (sd ed : Int) : flatten.model [x] sd ed = some [x] := by
+  unfold flatten.model; simp
+
+theorem flatten_branchA (s : Shape) (ed : Int) (hr : 2 ≤ s.length) (he : ed = -1 ∨ ed = (s.length : Int) - 1) :
+    flatten.model s 1 ed = some (s.take 1 ++ [numel ((s.drop 1).take (s.length - 1 - 1 + 1))] ++ s.drop (s.length - 1 + 1)) := by
+  unfold flatten.model
+  have h1 : ¬ (s.length : Int) = 1 := by omega
+  simp only [h1, if_false, true_and, he, if_true]
+  unfold flattenOp
+  have hc : -(s.length : Int) ≤ 1 ∧ (1 : Int) ≤ s.length := by omega
+  simp only [hc, and_self, if_true, show ¬ ((1 : Int) < 0) from by decide, if_false, show (1 : Int).toNat = 1 from rfl]
+  match s, hr with
+  | x :: y :: t, _ =>
+    have e1 : (x :: y :: t).length - 1 - 1 + 1 = (y :: t).length := by simp
+    have e2 : (x :: y :: t).length - 1 + 1 = (x :: y :: t).length := by simp
+    rw [e1, e2, List.drop_length]
+    simp [numel]
+
+theorem drop_last_numel (s : Shape) (hr : 1 ≤ s.length) : [numel (s.drop (s.length - 1))] = s.drop (s.length - 1) := by
+  have hl : (s.drop (s.length - 1)).length = 1 := by simp; omega
+  match hx : s.drop (s.length - 1), hl with
+  | [z], _ => simp [numel]
+
+theorem flatten_branchB (s : Shape) (ed : Int) (hr : 2 ≤ s.length) (he : ed = -2 ∨ ed = (s.length : Int) - 2) :
+    flatten.model s 0 ed = some ([numel (s.take (s.length - 2 - 0 + 1))] ++ s.drop (s.length - 2 + 1)) := by
+  unfold flatten.model
+  have h1 : ¬ (s.length : Int) = 1 := by omega
+  have hA : ¬ ((0 : Int) = 1 ∧ (ed = -1 ∨ ed = (s.length : Int) - 1)) := by omega
+  simp only [h1, if_false, hA, true_and, he, if_true]
+  unfold flattenOp
+  have hax : (if ed + 1 < 0 then ed + 1 + (s.length : Int) else ed + 1).toNat = s.length - 1 := by
+    rcases he with e | e <;> (subst e; split <;> omega)
+  have hc : -(s.length : Int) ≤ ed + 1 ∧ ed + 1 ≤ (s.length : Int) := by
+    rcases he with e | e <;> (subst e; omega)
+  simp only [hc, and_self, if_true, hax]
+  have e2 : s.length - 2 - 0 + 1 = s.length - 1 := by omega
+  have e3 : s.length - 2 + 1 = s.length - 1 := by omega
+  rw [e2, e3]
+  have := drop_last_numel s (by omega)
+  simp only [List.singleton_append]
+  rw [← this]
+  simp [numel]
+
+theorem flatten_agrees (s : Shape) (sd ed : Int) (out : Shape)
+    (h : flatten.spec s sd ed = some out) : flatten.model s sd ed = some out := by
+  unfold flatten.spec at h
+  cases ha : torchDim s.length sd with
+  | none => simp [ha] at h
+  | some a =>
+    cases hb : torchDim s.length ed with
+    | none => simp [ha, hb] at h
+    | some b =>
+      simp only [ha, hb] at h
+      split at h
+      · simp at h
+      · next hab =>
+        have hab : a ≤ b := by omega
+        by_cases hr : s.length = 0
+        · have hs : s = [] := List.length_eq_zero_iff.mp hr
+          subst hs
+          simp only [List.length_nil, if_true] at h
+          have ha' : normAxis 1 sd = some a := by unfold torchDim at ha; simpa using ha
+          have hb' : normAxis 1 ed = some b := by unfold torchDim at hb; simpa using hb
+          obtain ⟨va, la⟩ := normAxis_val 1 sd a ha'
+          obtain ⟨vb, lb⟩ := normAxis_val 1 ed b hb'
+          have hsd : sd = 0 ∨ sd = -1 := by split at va <;> omega
+          have hed : ed = 0 ∨ ed = -1 := by split at vb <;> omega
+          rw [← h]
+          rcases hsd with rfl | rfl <;> rcases hed with rfl | rfl <;> decide
+        · simp only [hr, if_false] at h
+          have han : normAxis s.length sd = some a := by unfold torchDim at ha; simpa [hr] using ha
+          have hbn : normAxis s.length ed = some b := by unfold torchDim at hb; simpa [hr] using hb
+          obtain ⟨va, halt⟩ := normAxis_val s.length sd a han
+          obtain ⟨vb, hblt⟩ := normAxis_val s.length ed b hbn
+          by_cases h1 : s.length = 1
+          · match s, h1 with
+            | [x], _ =>
+              have ha0 : a = 0 := by simp at halt; omega
+              have hb0 : b = 0 := by simp at hblt; omega
+              rw [ha0, hb0] at h
+              simp [numel] at h
+              rw [flatten_rank1, ← h]
+          · by_cases hA : sd = 1 ∧ (ed = -1 ∨ ed = (s.length : Int) - 1)
+            · obtain ⟨h1', h2'⟩ := hA
+              have ha1 : a = 1 := by rw [h1'] at va; simp at va; omega
+              have hb1 : b = s.length - 1 := by rcases h2' with e | e <;> (rw [e] at vb; split at vb <;> omega)
+              rw [h1', flatten_branchA s ed (by omega) h2', ← h, ha1, hb1]
+            · by_cases hB : sd = 0 ∧ (ed = -2 ∨ ed = (s.length : Int) - 2)
+              · obtain ⟨h1', h2'⟩ := hB
+                have hr2 : 2 ≤ s.length := by rcases h2' with e | e <;> (rw [e] at vb; split at vb <;> omega)
+                have ha0 : a = 0 := by rw [h1'] at va; simp at va; omega
+                have hb0 : b = s.length - 2 := by rcases h2' with e | e <;> (rw [e] at vb; split at vb <;> omega)
+                rw [h1', flatten_branchB s ed hr2 h2', ← h, ha0, hb0]
+                simp
+              · unfold flatten.model
+                have h1i : ¬ (s.length : Int) = 1 := by omega
+                simp only [h1i, hA, hB, if_false]
+                have hed' : (if ed < 0 then (s.length : Int) + ed else ed) = (b : Int) := by
+                  split at vb <;> (split <;> omega)
+                simp only [hed']
+                unfold flatten.staticTarget
+                dsimp only
+                rw [pyBound_valid s.length sd a han]
+                have hb1 : flatten.pyBound s.length ((b : Int) + 1) = b + 1 := by
+                  unfold flatten.pyBound
+                  have : ¬ ((b : Int) + 1 < 0) := by omega
+                  simp only [this, if_false]
+                  omega
+                rw [hb1, flatten_general s a b hab hblt, ← h]
+
+theorem removeSingleAux (s : Shape) (a n : Nat) :
+    ((s.zipIdx n).filter (fun p => ![a + n].contains p.2)).map (·.1) = s.take a ++ s.drop (a + 1) := by
+  induction s generalizing a n with
+  | nil => simp
+  | cons x xs ih =>
+    simp only [List.zipIdx_cons, List.filter_cons]
+    cases a with
+    | zero =>
+      have hc : [0 + n].contains n = true := by simp
+      simp only [hc, Bool.not_true, Bool.false_eq_true, if_false, List.take_zero, List.nil_append, List.drop_succ_cons, List.drop_zero]
+      -- remaining indices are all ≠ n
+      have : ∀ (l : List Nat) (m : Nat), n < m → ((l.zipIdx m).filter (fun p => ![0 + n].contains p.2)).map (·.1) = l := by
+        intro l
+        induction l with
+        | nil => intro m _; simp
+        | cons y ys ihy =>
+          intro m hm
+          have hne : [0 + n].contains m = false := by simp; omega
+          simp only [List.zipIdx_cons, List.filter_cons, hne, Bool.not_false, if_true, List.map_cons]
+          rw [ihy (m + 1) (by omega)]
+      exact this xs (n + 1) (by omega)
+    | succ k =>
+      have hc : [k + 1 + n].contains n = false := by simp
+      simp only [hc, Bool.not_false, if_true, List.map_cons, List.take_succ_cons, List.cons_append, List.drop_succ_cons]
+      have := ih k (n + 1)
+      have e : k + (n + 1) = k + 1 + n := by omega
+      rw [e] at this
+      rw [this]
+
+theorem removeIdxs_single (s : Shape) (a : Nat) : removeIdxs s [a] = s.take a ++ s.drop (a + 1) := by
+  unfold removeIdxs
+  have := removeSingleAux s a 0
+  simpa using this
+
+theorem select_agrees (s : Shape) (dim index : Int) (hr : s.length ≠ 0) :
+    select.model s dim index = select.spec s dim index := by
+  unfold select.model select.spec gatherScalar
+  simp only [hr, if_false]
+  cases normAxis s.length dim with
+  | none => rfl
+  | some a => simp only [removeIdxs_single]
+
+theorem pyIndex_of_normAxis (s : Shape) (dim : Int) (a : Nat) (h : normAxis s.length dim = some a) :
+    squeeze_dim.pyIndex s dim = some (s.getD a 0) := by
+  obtain ⟨h1, h2, h3⟩ := normAxis_some _ _ _ h
+  unfold squeeze_dim.pyIndex
+  by_cases hneg : dim < 0
+  · simp only [hneg, if_true] at h1 h2
+    have c1 : ¬ (0 ≤ dim ∧ dim < (s.length : Int)) := by omega
+    have c2 : -(s.length : Int) ≤ dim ∧ dim < 0 := by omega
+    simp only [c1, c2, if_false, if_true, and_self]
+    rw [h2]
+  · simp only [hneg, if_false] at h1 h2
+    have c1 : 0 ≤ dim ∧ dim < (s.length : Int) := by omega
+    simp only [c1, and_self, if_true]
+    rw [h2]
+
+/-- after fix 3fa9486: no hypothesis on the size of the axis. -/
+theorem squeeze_dim_agrees (s : Shape) (dim : Int) (out : Shape)
+    (h : squeeze_dim.spec s dim = some out) : squeeze_dim.model s dim = some out := by
+  unfold squeeze_dim.spec at h
+  unfold squeeze_dim.model
+  cases ha : torchDim s.length dim with
+  | none => rw [ha] at h; cases h
+  | some a =>
+    rw [ha] at h
+    simp only at h
+    by_cases hr : s.length = 0
+    · simp only [hr, if_true] at h ⊢; exact h
+    · have han : normAxis s.length dim = some a := by unfold torchDim at ha; simpa [hr] using ha
+      simp only [hr, if_false, pyIndex_of_normAxis s dim a han] at h ⊢
+      by_cases h1 : s.getD a 0 = 1
+      · simp only [h1, if_true, ne_eq, not_true_eq_false, if_false] at h ⊢
+        rw [← h]
+        unfold squeezeOp normAxes
+        have h1'' : s[a]?.getD 0 = 1 := by simpa [List.getD_eq_getElem?_getD] using h1
+        simp [han, h1'']
+      · simp only [h1, if_false, ne_eq, not_false_eq_true, if_true] at h ⊢
+        exact h
+
+theorem index_select_agrees (s : Shape) (dim : Int) (n : Nat) (out : Shape)
+    (h : index_select.spec s dim n = some out) : index_select.model s dim n = some out := by
+  unfold index_select.spec at h
+  unfold index_select.model
+  cases ha : torchDim s.length dim with
+  | none => simp [ha] at h
+  | some a =>
+    simp only [ha] at h
+    by_cases hr : s.length = 0
+    · have hs : s = [] := List.length_eq_zero_iff.mp hr
+      subst hs
+      simp only [List.length_nil, if_true] at h ⊢
+      split at h
+      · next hn =>
+        subst hn
+        injection h with h; subst h
+        have ha' : normAxis 1 dim = some a := by unfold torchDim at ha; simpa using ha
+        have : a = 0 := by
+          obtain ⟨_, _, h3⟩ := normAxis_some 1 dim a ha'
+          omega
+        subst this
+        simp [reshape_flat, numel, gatherVec, ha', setAt, squeezeAll]
+      · simp at h
+    · have han : normAxis s.length dim = some a := by unfold torchDim at ha; simpa [hr] using ha
+      simp only [hr, if_false] at h ⊢
+      simp only [gatherVec, han, Option.map_some]
+      exact h
+
+theorem unbind_agrees (s : Shape) (dim : Int) (hr : s.length ≠ 0) : unbind.model s dim = unbind.spec s dim := by
+  unfold unbind.model unbind.spec
+  simp only [hr, if_false]
+  cases ha : normAxis s.length dim with
+  | none => rfl
+  | some a =>
+    simp only []
+    obtain ⟨_, _, halt⟩ := normAxis_some s.length dim a ha
+    rw [mapM_some_of_forall _ (fun _ => s.take a ++ s.drop (a + 1))]
+    · simp [List.map_const']
+    · intro i hi
+      have hi' : i < s.getD a 0 := by simpa using hi
+      have hs := sliceOp_bounds s dim a i (i + 1) ha (by omega) (by omega)
+      have e : ((i + 1 : Nat) : Int) = (i : Int) + 1 := by omega
+      rw [e] at hs
+      simp only [hs, show i + 1 - i = 1 from by omega]
+      unfold squeezeOp normAxes
+      have hl : (setAt s a 1).length = s.length := by simp [setAt]
+      simp only [hl, List.mapM_cons, List.mapM_nil, ha, bind, Option.bind, pure]
+      have hg : (setAt s a 1).getD a 0 = 1 := by
+        simp [setAt, List.getD_eq_getElem?_getD, halt]
+      simp only [List.all_cons, List.all_nil, hg, beq_self_eq_true, Bool.and_true, if_true, removeIdxs_single]
+      simp [setAt, List.take_set, List.drop_set]
+      apply List.set_eq_of_length_le
+      simp
+      omega
+
+theorem torchReduce_rank0 (dims : List Int) (keep : Bool) (out : Shape)
+    (h : torchReduce [] dims keep = some out) : out = [] := by
+  unfold torchReduce at h
+  simp only [List.length_nil] at h
+  cases hm : dims.mapM (torchDim 0) with
+  | none => rw [hm] at h; simp at h
+  | some ax =>
+    rw [hm] at h
+    simp only at h
+    split at h
+    · simp at h
+    · cases keep <;> simp [removeIdxs] at h <;> exact h
+
+theorem sum_dim_agrees (s : Shape) (dims : Option (List Int)) (keep : Bool) (out : Shape)
+    (h : sum_dim.spec s dims keep = some out) : sum_dim.model s dims keep = some out := by
+  unfold sum_dim.spec at h
+  unfold sum_dim.model
+  by_cases hr : s.length = 0
+  · have hs : s = [] := List.length_eq_zero_iff.mp hr
+    subst hs
+    simp only [List.length_nil, if_true]
+    rw [torchReduce_rank0 _ keep out h]
+  · simp only [hr, if_false]
+    cases dims with
+    | none => exact reduce_agrees s [] keep out hr h
+    | some ds => exact reduce_agrees s ds keep out hr h
+
+theorem mean_dim_agrees (s : Shape) (dims : List Int) (keep : Bool) (out : Shape)
+    (h : mean_dim.spec s dims keep = some out) : mean_dim.model s dims keep = some out := by
+  unfold mean_dim.spec at h
+  unfold mean_dim.model
+  by_cases hr : s.length = 0
+  · have hs : s = [] := List.length_eq_zero_iff.mp hr
+    subst hs
+    simp only [List.length_nil, if_true]
+    rw [torchReduce_rank0 _ keep out h]
+  · simp only [hr, if_false]
+    exact reduce_agrees s dims keep out hr h
+
+theorem amax_agrees (s : Shape) (dims : Option (List Int)) (keep : Bool) (out : Shape)
+    (hr : s.length ≠ 0 ∨ dims.getD [] = [])
+    (h : amax.spec s dims keep = some out) : amax.model s dims keep = some out := by
+  unfold amax.spec at h
+  unfold amax.model
+  split at h
+  · by_cases h0 : s.length = 0
+    · have hd : dims.getD [] = [] := by rcases hr with hr | hr; exact absurd h0 hr; exact hr
+      have hs : s = [] := List.length_eq_zero_iff.mp h0
+      subst hs
+      rw [hd] at h ⊢
+      rw [torchReduce_rank0 _ keep out h]
+      cases keep <;> rfl
+    · exact reduce_agrees s _ keep out h0 h
+  · simp at h
+
+/-- after fix f89de7f: rank 0 included. -/
+theorem prod_dim_agrees (s : Shape) (dim : Int) (keep : Bool) (out : Shape)
+    (h : prod_dim.spec s dim keep = some out) : prod_dim.model s dim keep = some out := by
+  unfold prod_dim.model
+  by_cases hr : s.length = 0
+  · have hs : s = [] := List.length_eq_zero_iff.mp hr
+    subst hs
+    unfold prod_dim.spec at h
+    simp only [List.length_nil, if_true]
+    rw [torchReduce_rank0 _ keep out h]
+  · simp only [hr, if_false]
+    exact reduce_agrees s [dim] keep out hr h
+
+theorem all_dim_agrees (s : Shape) (dim : Int) (keep : Bool) (out : Shape)
+    (h : all_dim.spec s dim keep = some out) : all_dim.model s dim keep = some out := by
+  unfold all_dim.spec at h
+  unfold all_dim.model reduceDyn
+  by_cases hr : s.length = 0
+  · have hs : s = [] := List.length_eq_zero_iff.mp hr
+    subst hs
+    have ho := torchReduce_rank0 _ keep out h
+    subst ho
+    simp only [List.length_nil, if_true]
+    -- the dim is 0 or -1
+    unfold torchReduce at h
+    simp only [List.length_nil, List.mapM_cons, List.mapM_nil] at h
+    cases hd : torchDim 0 dim with
+    | none => rw [hd] at h; simp at h
+    | some a =>
+      have hn : normAxis 1 dim = some a := by unfold torchDim at hd; simpa using hd
+      obtain ⟨_, h2, h3⟩ := normAxis_some 1 dim a hn
+      have : dim = 0 ∨ dim = -1 := by
+        split at h2 <;> omega
+      rcases this with rfl | rfl <;> simp
+  · simp only [hr, if_false]
+    exact reduce_agrees s [dim] keep out hr h
+
+theorem cumsum_agrees (s : Shape) (dim : Int) (out : Shape)
+    (h : cumsum.spec s dim = some out) : cumsum.model s dim = some out := by
+  unfold cumsum.spec at h
+  unfold cumsum.model
+  by_cases hr : s.length = 0
+  · simp only [hr, if_true]
+    cases hd : torchDim s.length dim with
+    | none => simp [hd] at h
+    | some a => simp [hd] at h; rw [h]
+  · simp only [hr, if_false]
+    have : torchDim s.length dim = normAxis s.length dim := by unfold torchDim; simp [hr]
+    rw [this] at h
+    exact h
+
+theorem slice_start_len (d start S : Int) (hd : 0 ≤ d) (h0 : 0 ≤ start) (hS : 0 ≤ S) (h : S = 0 ∨ start + S ≤ d) :
+    (sliceLen d start (start + S) 1 : Int) = S := by
+  rw [sliceLen_one]
+  unfold clampI
+  have e1 : ¬ start < 0 := by omega
+  have e2 : ¬ start + S < 0 := by omega
+  simp only [e1, e2, if_false, Int.min_def, Int.max_def]
+  (repeat' split) <;> omega
+
+theorem diagonal_len' (rows cols offset : Int) (hr : 0 ≤ rows) (hc : 0 ≤ cols) :
+    diagonal.modelLen rows cols offset = diagonal.specLen rows cols offset := by
+  unfold diagonal.modelLen diagonal.specLen
+  simp only [Int.min_def, Int.max_def]
+  (repeat' split) <;> omega
+
+theorem diagonal_slice (rows cols offset : Int) (hr : 0 ≤ rows) (hc : 0 ≤ cols) :
+    (sliceLen cols (if offset < 0 then 0 else offset)
+        ((if offset < 0 then 0 else offset) + diagonal.modelLen rows cols offset) 1 : Int)
+      = diagonal.specLen rows cols offset := by
+  rw [diagonal_len' rows cols offset hr hc]
+  have hS : 0 ≤ diagonal.specLen rows cols offset ∧
+      (diagonal.specLen rows cols offset = 0 ∨ (if offset < 0 then 0 else offset) + diagonal.specLen rows cols offset ≤ cols) := by
+    unfold diagonal.specLen
+    simp only [Int.min_def, Int.max_def]
+    (repeat' split) <;> omega
+  exact slice_start_len cols _ _ hc (by split <;> omega) hS.1 hS.2
+
+theorem diagonal_agrees (s : Shape) (offset d1 d2 : Int) (out : Shape)
+    (h : diagonal.spec s offset d1 d2 = some out) : diagonal.model s offset d1 d2 = some out := by
+  unfold diagonal.spec at h
+  by_cases hr : s.length = 0
+  · simp [hr] at h
+  · simp only [hr, if_false] at h
+    cases ha : normAxis s.length d1 with
+    | none => simp [ha] at h
+    | some a =>
+      cases hb : normAxis s.length d2 with
+      | none => simp [ha, hb] at h
+      | some b =>
+        simp only [ha, hb] at h
+        split at h
+        · simp at h
+        · next hne =>
+          obtain ⟨va, hal⟩ := normAxis_val s.length d1 a ha
+          obtain ⟨vb, hbl⟩ := normAxis_val s.length d2 b hb
+          unfold diagonal.model
+          dsimp only
+          rw [← va, ← vb]
+          have hc : ¬ ((a : Int) < 0 ∨ (b : Int) < 0 ∨ (a : Int) ≥ s.length ∨ (b : Int) ≥ s.length ∨ (a : Int) = b) := by omega
+          simp only [hc, if_false, Int.toNat_natCast]
+          injection h with h
+          rw [← h]
+          congr 3
+          have := diagonal_slice (s.getD a 0 : Nat) (s.getD b 0 : Nat) offset (by omega) (by omega)
+          omega
+
+section attr2
+open OV.C08.attr
+theorem poolSpatial_of_torch (ceil : Bool) (sp : List Nat) (kernel strides p dils : List Int) (o : List Nat)
+    (h : torchPoolSpatial ceil sp kernel strides p dils = some o) :
+    poolSpatial ceil sp kernel strides (p ++ p) dils = some o := by
+  unfold torchPoolSpatial at h
+  unfold poolSpatial
+  dsimp only at h ⊢
+  split at h
+  · simp at h
+  · next hl =>
+    have hk : kernel.length = sp.length := by omega
+    have hs : strides.length = sp.length := by omega
+    have hp : p.length = sp.length := by omega
+    have hd : dils.length = sp.length := by omega
+    have hl' : ¬ (kernel.length ≠ sp.length ∨ strides.length ≠ sp.length ∨ (p ++ p).length ≠ 2 * sp.length ∨ dils.length ≠ sp.length) := by
+      simp only [List.length_append]; omega
+    simp only [hl', if_false]
+    split at h
+    · simp at h
+    · next hv =>
+      have hst : strides.any (· ≤ 0) = false := by
+        cases hh : strides.any (· ≤ 0) with
+        | false => rfl
+        | true => exact absurd (Or.inl hh) hv
+      simp only [hst, Bool.false_eq_true, if_false]
+      split at h
+      · simp at h
+      · split at h
+        · simp at h
+        · have hmap : (List.range sp.length).map (fun i =>
+              poolOut ceil (sp.getD i 0) (getI kernel i) (getI strides i) (getI (p ++ p) i) (getI (p ++ p) (i + sp.length)) (getI dils i))
+            = (List.range sp.length).map (fun i =>
+              torchPoolOut ceil (sp.getD i 0) (getI kernel i) (getI strides i) (getI p i) (getI dils i)) := by
+            apply List.map_congr_left
+            intro i hi
+            have hi' : i < p.length := by rw [hp]; simpa using hi
+            obtain ⟨e1, e2⟩ := axis_pads p i hi'
+            rw [hp] at e2
+            rw [e1, e2, pool_out_agrees]
+          rw [hmap]
+          exact h
+
+theorem expand_full_model (l : List Int) (k : Nat) (h : l.length = k) : (if l.length = 1 then pyMul l k else l) = l := by
+  split
+  · next h1 => have : k = 1 := by omega
+               subst this; exact pyMul_one l
+  · rfl
+
+theorem expand_full_spec (l dflt : List Int) (k : Nat) (h : l.length = k) (hk : 1 ≤ k) :
+    torchExpand k (.list l) dflt = l := by
+  unfold torchExpand
+  have hne : l.isEmpty = false := by cases l with
+    | nil => simp at h; omega
+    | cons _ _ => rfl
+  simp only [hne, Bool.false_eq_true, if_false]
+  split
+  · next h1 =>
+    have : k = 1 := by omega
+    subst this
+    match l, h1 with
+    | [x], _ => rfl
+  · rfl
+
+theorem avg_pool_agrees (k : Nat) (s : Shape) (kl sl p : List Int) (ceil : Bool) (out : Shape) (hk : 1 ≤ k)
+    (h1 : kl.length = k) (h2 : sl.length = k) (h3 : p.length = k)
+    (h : avg_pool.spec k s (.list kl) (.list sl) (.list p) ceil = some out) :
+    avg_pool.model k s (.list kl) (.list sl) (.list p) ceil = some out := by
+  unfold avg_pool.spec at h
+  split at h
+  · simp at h
+  · next hlen =>
+    have hlen : s.length = k + 1 ∨ s.length = k + 2 := by omega
+    dsimp only at h
+    rw [expand_full_spec kl [] k h1 hk, expand_full_spec sl kl k h2 hk, expand_full_spec p [] k h3 hk] at h
+    cases ht : torchPoolSpatial ceil (s.drop (s.length - k)) kl sl p (List.replicate k 1) with
+    | none => rw [ht] at h; simp at h
+    | some o =>
+      rw [ht] at h
+      simp only [Option.map_some, Option.some.injEq] at h
+      have hm := poolSpatial_of_torch ceil _ kl sl p _ o ht
+      unfold avg_pool.model
+      have hav : attr.avgPool k (.list kl) (.list sl) (.list p) = (kl, sl, p ++ p) := by
+        have hp := avg_pads_layout k (.list kl) (.list sl) p h3 hk
+        unfold attr.avgPool at hp ⊢
+        have hsl : sl.isEmpty = false := by cases sl with
+          | nil => simp at h2; omega
+          | cons _ _ => rfl
+        simp only [expand_full_model kl k h1, expand_full_model sl k h2, hsl, Bool.false_eq_true, if_false] at hp ⊢
+        rw [hp]
+      rw [hav]
+      dsimp only
+      rcases hlen with hu | hb
+      · -- unbatched: [C, spatial…]
+        have hunb : s.length = kl.length + 1 := by omega
+        simp only [hunb, if_true]
+        have hl2 : ¬ ((1 :: s).length ≠ kl.length + 2) := by simp; omega
+        simp only [hl2, if_false]
+        have hd : (1 :: s).drop 2 = s.drop (s.length - k) := by
+          have : s.length - k = 1 := by omega
+          rw [this]; rfl
+        rw [hd, h1, hm]
+        simp only []
+        rw [← h]
+        have : s.length - k = 1 := by omega
+        rw [this]
+        match s, hu with
+        | x :: t, _ => simp
+      · have hunb : ¬ s.length = kl.length + 1 := by omega
+        have hl2 : ¬ (s.length ≠ kl.length + 2) := by omega
+        simp only [hunb, if_false, hl2]
+        have hd : s.drop 2 = s.drop (s.length - k) := by
+          have : s.length - k = 2 := by omega
+          rw [this]
+        rw [hd, h1, hm]
+        simp only []
+        rw [← h]
+        have : s.length - k = 2 := by omega
+        rw [this]
+
+theorem max_pool_agrees (k : Nat) (s : Shape) (kl sl p dl : List Int) (ceil : Bool) (out : Shape) (hk : 1 ≤ k) (hk3 : k ≤ 3)
+    (h1 : kl.length = k) (h2 : sl.length = k) (h3 : p.length = k) (h4 : dl.length = k)
+    (h : max_pool.spec k s (.list kl) (.list sl) (.list p) (.list dl) ceil = some out) :
+    max_pool.model k s (.list kl) (.list sl) (.list p) (.list dl) ceil = some out := by
+  unfold max_pool.spec at h
+  split at h
+  · simp at h
+  · next hlen =>
+    have hlen : s.length = k + 1 ∨ s.length = k + 2 := by omega
+    dsimp only at h
+    rw [expand_full_spec kl [] k h1 hk, expand_full_spec sl kl k h2 hk, expand_full_spec p [] k h3 hk,
+      expand_full_spec dl [] k h4 hk] at h
+    cases ht : torchPoolSpatial ceil (s.drop (s.length - k)) kl sl p dl with
+    | none => rw [ht] at h; simp at h
+    | some o =>
+      rw [ht] at h
+      simp only [Option.map_some, Option.some.injEq] at h
+      have hm := poolSpatial_of_torch ceil _ kl sl p dl o ht
+      unfold max_pool.model
+      have hav : attr.maxPool k (.list kl) (.list sl) (.list p) (.list dl) = (kl, sl, p ++ p, dl) := by
+        have hp := max_pads_layout k (.list kl) (.list sl) (.list dl) p h3 hk hk3
+        unfold attr.maxPool at hp ⊢
+        have hsl : sl.isEmpty = false := by cases sl with
+          | nil => simp at h2; omega
+          | cons _ _ => rfl
+        simp only [expand_full_model kl k h1, expand_full_model sl k h2, expand_full_model dl k h4, hsl,
+          Bool.false_eq_true, if_false] at hp ⊢
+        rw [hp]
+      rw [hav]
+      dsimp only
+      rcases hlen with hu | hb
+      · simp only [hu, if_true]
+        have hl2 : ¬ ((1 :: s).length ≠ kl.length + 2) := by simp; omega
+        simp only [hl2, if_false]
+        have hd : (1 :: s).drop 2 = s.drop (s.length - k) := by
+          have : s.length - k = 1 := by omega
+          rw [this]; rfl
+        rw [hd, hm]
+        simp only []
+        rw [← h]
+        have : s.length - k = 1 := by omega
+        rw [this]
+        match s, hu with
+        | x :: t, _ => simp
+      · have hunb : ¬ s.length = k + 1 := by omega
+        have hl2 : ¬ (s.length ≠ kl.length + 2) := by omega
+        simp only [hunb, if_false, hl2]
+        have hd : s.drop 2 = s.drop (s.length - k) := by
+          have : s.length - k = 2 := by omega
+          rw [this]
+        rw [hd, hm]
+        simp only []
+        rw [← h]
+        have : s.length - k = 2 := by omega
+        rw [this]
+
+theorem conv_expand_full (l : List Int) (k : Nat) (h : l.length = k) (hk : 2 ≤ k) :
+    (if l.length = 1 then List.replicate k (l.getD 0 0) else l) = l := by
+  have : ¬ l.length = 1 := by omega
+  simp [this]
+
+theorem conv_agrees (s w : Shape) (sl p dl : List Int) (tr : Bool) (op : List Int) (g : Nat) (out : Shape)
+    (hk : 2 ≤ s.length - 2) (h2 : sl.length = s.length - 2) (h3 : p.length = s.length - 2) (h4 : dl.length = s.length - 2)
+    (h : conv.spec s w (.list sl) (.list p) (.list dl) tr op g = some out) :
+    conv.model s w (.list sl) (.list p) (.list dl) tr op g = some out := by
+  have hk1 : 1 ≤ s.length - 2 := by omega
+  have hav : attr.convolution (s.length - 2) (.list sl) (.list p) (.list dl) = (sl, p ++ p, dl) := by
+    unfold attr.convolution
+    simp only [conv_expand_full sl _ h2 hk, conv_expand_full p _ h3 hk, conv_expand_full dl _ h4 hk]
+  have hpads : ∀ i, i < s.length - 2 → getI (p ++ p) i = getI p i ∧ getI (p ++ p) (i + (s.length - 2)) = getI p i := by
+    intro i hi
+    have hi' : i < p.length := by rw [h3]; exact hi
+    obtain ⟨e1, e2⟩ := axis_pads p i hi'
+    rw [h3] at e2
+    exact ⟨e1, e2⟩
+  unfold conv.spec at h
+  unfold conv.model
+  dsimp only at h ⊢
+  rw [expand_full_spec sl [] _ h2 hk1, expand_full_spec p [] _ h3 hk1, expand_full_spec dl [] _ h4 hk1] at h
+  rw [hav]
+  dsimp only
+  by_cases hc : s.length < 3 ∨ w.length ≠ s.length
+  · rw [if_pos hc] at h; cases h
+  · rw [if_neg hc] at h
+    have hl : ¬ (sl.length ≠ s.length - 2 ∨ p.length ≠ s.length - 2 ∨ dl.length ≠ s.length - 2) := by omega
+    rw [if_neg hl] at h
+    have hc' : ¬ (s.length < 3 ∨ w.length ≠ s.length ∨ sl.length ≠ s.length - 2 ∨ (p ++ p).length ≠ 2 * (s.length - 2)
+        ∨ dl.length ≠ s.length - 2) := by
+      simp only [List.length_append]; omega
+    rw [if_neg hc']
+    cases tr
+    · simp only [Bool.false_eq_true, if_false] at h ⊢
+      have hmap : (List.range (s.length - 2)).map (fun i =>
+            convOut ((s.drop 2).getD i 0) ((w.drop 2).getD i 0) (getI sl i) (getI (p ++ p) i) (getI (p ++ p) (i + (s.length - 2))) (getI dl i))
+          = (List.range (s.length - 2)).map (fun i =>
+            torchConvOut ((s.drop 2).getD i 0) ((w.drop 2).getD i 0) (getI sl i) (getI p i) (getI dl i)) := by
+        apply List.map_congr_left
+        intro i hi
+        obtain ⟨e1, e2⟩ := hpads i (by simpa using hi)
+        rw [e1, e2, conv_out_agrees]
+      rw [hmap]
+      by_cases hv : (((List.range (s.length - 2)).map (fun i =>
+            torchConvOut ((s.drop 2).getD i 0) ((w.drop 2).getD i 0) (getI sl i) (getI p i) (getI dl i))).any (· ≤ 0) = true)
+      · have : (((List.range (s.length - 2)).map (fun i =>
+            torchConvOut ((s.drop 2).getD i 0) ((w.drop 2).getD i 0) (getI sl i) (getI p i) (getI dl i))).any (· ≤ 0) = true)
+            ∨ ((List.range (s.length - 2)).any (fun i => getI op i ≥ getI sl i) = true) := Or.inl hv
+        rw [if_pos this] at h; cases h
+      · rw [if_neg hv]
+        split at h
+        · cases h
+        · exact h
+    · simp only [if_true] at h ⊢
+      have hmap : (List.range (s.length - 2)).map (fun i =>
+            convTOut ((s.drop 2).getD i 0) ((w.drop 2).getD i 0) (getI sl i) (getI (p ++ p) i) (getI (p ++ p) (i + (s.length - 2)))
+              (getI dl i) (getI op i))
+          = (List.range (s.length - 2)).map (fun i =>
+            torchConvTOut ((s.drop 2).getD i 0) ((w.drop 2).getD i 0) (getI sl i) (getI p i) (getI dl i) (getI op i)) := by
+        apply List.map_congr_left
+        intro i hi
+        obtain ⟨e1, e2⟩ := hpads i (by simpa using hi)
+        rw [e1, e2, convT_out_agrees]
+      rw [hmap]
+      by_cases hv : (((List.range (s.length - 2)).map (fun i =>
+            torchConvTOut ((s.drop 2).getD i 0) ((w.drop 2).getD i 0) (getI sl i) (getI p i) (getI dl i) (getI op i))).any (· ≤ 0) = true)
+      · have : (((List.range (s.length - 2)).map (fun i =>
+            torchConvTOut ((s.drop 2).getD i 0) ((w.drop 2).getD i 0) (getI sl i) (getI p i) (getI dl i) (getI op i))).any (· ≤ 0) = true)
+            ∨ ((List.range (s.length - 2)).any (fun i => getI op i ≥ getI sl i) = true) := Or.inl hv
+        rw [if_pos this] at h; cases h
+      · rw [if_neg hv]
+        split at h
+        · cases h
+        · exact h
+
+theorem getI_flatPairs (ps : List (Int × Int)) (j : Nat) :
+    getI (flatPairs ps) (2 * j) = (ps.getD j (0, 0)).1 ∧ getI (flatPairs ps) (2 * j + 1) = (ps.getD j (0, 0)).2 := by
+  induction ps generalizing j with
+  | nil => simp [flatPairs, getI]
+  | cons q qs ih =>
+    cases j with
+    | zero => simp [flatPairs, getI]
+    | succ n =>
+      have := ih n
+      unfold flatPairs getI at this ⊢
+      simp only [List.flatMap_cons, List.cons_append, List.nil_append]
+      have e1 : 2 * (n + 1) = (2 * n + 1) + 1 := by omega
+      have e2 : 2 * (n + 1) + 1 = ((2 * n + 1) + 1) + 1 := by omega
+      rw [e1]
+      simp only [List.getD_cons_succ]
+      exact this
+
+theorem getI_pad_side (r : Nat) (ps : List (Int × Int)) (f : Int × Int → Int) (hf0 : f (0, 0) = 0) (hm : ps.length ≤ r)
+    (i : Nat) (hi : i < r) :
+    getI (List.replicate (r - ps.length) 0 ++ ps.reverse.map f) i = f (ps.getD (r - 1 - i) (0, 0)) := by
+  unfold getI
+  by_cases hlt : i < r - ps.length
+  · have hj : ps.length ≤ r - 1 - i := by omega
+    rw [List.getD_eq_getElem?_getD, List.getElem?_append_left (by simpa using hlt)]
+    simp only [List.getElem?_replicate, hlt, if_true, Option.getD_some]
+    rw [List.getD_eq_getElem?_getD, List.getElem?_eq_none hj]
+    simp [hf0]
+  · have hge : r - ps.length ≤ i := by omega
+    rw [List.getD_eq_getElem?_getD, List.getElem?_append_right (by simpa using hge)]
+    simp only [List.length_replicate]
+    have hk : i - (r - ps.length) < ps.length := by omega
+    have hj : r - 1 - i < ps.length := by omega
+    rw [List.getElem?_map, List.getElem?_reverse hk]
+    have e : ps.length - 1 - (i - (r - ps.length)) = r - 1 - i := by omega
+    rw [e, List.getD_eq_getElem?_getD, List.getElem?_eq_getElem hj]
+    simp
+
+theorem pad_agrees (s : Shape) (ps : List (Int × Int)) (hm : ps.length ≤ s.length) :
+    pad.model s (flatPairs ps) = pad.spec s (flatPairs ps) := by
+  unfold pad.model pad.spec
+  dsimp only
+  have hlen : (flatPairs ps).length = 2 * ps.length := flat_length ps
+  rw [pad_layout s.length ps hm]
+  have hc1 : ¬ ((flatPairs ps).length > 2 * s.length ∨
+      ((List.replicate (s.length - ps.length) (0:Int) ++ ps.reverse.map Prod.fst) ++
+        (List.replicate (s.length - ps.length) 0 ++ ps.reverse.map Prod.snd)).length ≠ 2 * s.length) := by
+    simp only [List.length_append, List.length_replicate, List.length_map, List.length_reverse, hlen]; omega
+  have hc2 : ¬ ((flatPairs ps).length % 2 ≠ 0 ∨ (flatPairs ps).length > 2 * s.length) := by rw [hlen]; omega
+  rw [if_neg hc1, if_neg hc2]
+  have hmap : (List.range s.length).map (fun i => (s.getD i 0 : Int)
+        + getI ((List.replicate (s.length - ps.length) 0 ++ ps.reverse.map Prod.fst) ++
+            (List.replicate (s.length - ps.length) 0 ++ ps.reverse.map Prod.snd)) i
+        + getI ((List.replicate (s.length - ps.length) 0 ++ ps.reverse.map Prod.fst) ++
+            (List.replicate (s.length - ps.length) 0 ++ ps.reverse.map Prod.snd)) (i + s.length))
+      = (List.range s.length).map (fun i => (s.getD i 0 : Int)
+        + getI (flatPairs ps) (2 * (s.length - 1 - i)) + getI (flatPairs ps) (2 * (s.length - 1 - i) + 1)) := by
+    apply List.map_congr_left
+    intro i hi
+    have hi' : i < s.length := by simpa using hi
+    have hB : (List.replicate (s.length - ps.length) (0:Int) ++ ps.reverse.map Prod.fst).length = s.length := by
+      simp; omega
+    obtain ⟨g1, g2⟩ := getI_flatPairs ps (s.length - 1 - i)
+    rw [g1, g2]
+    have b1 : getI ((List.replicate (s.length - ps.length) 0 ++ ps.reverse.map Prod.fst) ++
+            (List.replicate (s.length - ps.length) 0 ++ ps.reverse.map Prod.snd)) i
+        = getI (List.replicate (s.length - ps.length) 0 ++ ps.reverse.map Prod.fst) i := by
+      unfold getI
+      rw [List.getD_eq_getElem?_getD, List.getElem?_append_left (by rw [hB]; exact hi'), ← List.getD_eq_getElem?_getD]
+    have b2 : getI ((List.replicate (s.length - ps.length) 0 ++ ps.reverse.map Prod.fst) ++
+            (List.replicate (s.length - ps.length) 0 ++ ps.reverse.map Prod.snd)) (i + s.length)
+        = getI (List.replicate (s.length - ps.length) 0 ++ ps.reverse.map Prod.snd) i := by
+      unfold getI
+      rw [List.getD_eq_getElem?_getD, List.getElem?_append_right (by rw [hB]; omega), hB, ← List.getD_eq_getElem?_getD]
+      congr 1; omega
+    rw [b1, b2, getI_pad_side s.length ps Prod.fst rfl hm i hi', getI_pad_side s.length ps Prod.snd rfl hm i hi']
+  rw [hmap]
+
+theorem all_pos_iff (l : List Int) : l.all (0 < ·) = !l.any (· ≤ 0) := by
+  induction l with
+  | nil => rfl
+  | cons x xs ih =>
+    simp only [List.all_cons, List.any_cons, ih, Bool.not_or]
+    congr 1
+    by_cases h : 0 < x <;> simp [h] <;> omega
+
+theorem upsample_size_agrees (s : Shape) (outSize : List Int) : upsample.model s outSize none = upsample.spec s outSize := by
+  unfold upsample.model upsample.spec
+  by_cases h3 : s.length < 3
+  · simp [h3]
+  · simp only [h3, if_false, false_or, all_pos_iff]
+    by_cases hl : outSize.length + 2 = s.length
+    · cases ha : outSize.any (· ≤ 0) <;> simp [hl, ha]
+    · simp [hl]
+
+theorem unfold_agrees (s : Shape) (dim size step : Int) (out : Shape) (hr : s.length ≠ 0)
+    (h : unfold_.spec s dim size step = some out) : unfold_.model s dim size step = some out := by
+  unfold unfold_.spec at h
+  cases ha : torchDim s.length dim with
+  | none => simp [ha] at h
+  | some a =>
+    simp only [ha] at h
+    have han : normAxis s.length dim = some a := by unfold torchDim at ha; simpa [hr] using ha
+    obtain ⟨va, hal⟩ := normAxis_val s.length dim a han
+    by_cases hc : step ≤ 0 ∨ size < 0
+    · rw [if_pos hc] at h; cases h
+    · rw [if_neg hc, if_neg hr] at h
+      by_cases hs : size > ((s.getD a 0 : Nat) : Int)
+      · rw [if_pos hs] at h; cases h
+      · rw [if_neg hs] at h
+        unfold unfold_.model
+        rw [if_neg hr]
+        dsimp only
+        rw [← va]
+        have hc2 : ¬ ((a : Int) < 0 ∨ (a : Int) ≥ s.length ∨ size < 0) := by omega
+        rw [if_neg hc2]
+        simp only [Int.toNat_natCast]
+        rw [← h]
+        congr 3
+        have := unfold_windows_agree ((s.getD a 0 : Nat) : Int) size step (by omega) (by omega)
+        omega
+
+theorem col2im_agrees (s : Shape) (outSize kernel dil pad stride : List Int) (out : Shape) (hp : pad.length = 2)
+    (h : col2im.spec s outSize kernel dil pad stride = some out) :
+    col2im.model s outSize kernel dil pad stride = some out := by
+  unfold col2im.spec at h
+  unfold col2im.model
+  rw [col2im_pads_layout pad hp]
+  dsimp only at h ⊢
+  have hpl : (pad ++ pad).length = 4 := by simp [hp]
+  by_cases hc : s.length ≠ 3 ∨ outSize.length ≠ 2 ∨ kernel.length ≠ 2 ∨ dil.length ≠ 2 ∨ stride.length ≠ 2 ∨ pad.length ≠ 2
+  · rw [if_pos hc] at h; cases h
+  · rw [if_neg hc] at h
+    have h1 : ¬ (s.length ≠ 3 ∨ outSize.length ≠ 2 ∨ kernel.length ≠ 2 ∨ dil.length ≠ 2 ∨ stride.length ≠ 2 ∨ (pad ++ pad).length ≠ 4) := by
+      rw [hpl]; omega
+    rw [if_neg h1]
+    have hmap : (List.range 2).map (fun i => col2im.blocks (getI outSize i) (getI kernel i) (getI stride i)
+          (getI (pad ++ pad) i) (getI (pad ++ pad) (i + 2)) (getI dil i))
+        = (List.range 2).map (fun i => torchConvOut (getI outSize i) (getI kernel i) (getI stride i) (getI pad i) (getI dil i)) := by
+      apply List.map_congr_left
+      intro i hi
+      have hi' : i < pad.length := by rw [hp]; simpa using hi
+      obtain ⟨e1, e2⟩ := axis_pads pad i hi'
+      rw [hp] at e2
+      rw [e1, e2]
+      exact conv_out_agrees _ _ _ _ _
+    rw [hmap]
+    split at h
+    · cases h
+    · exact h
+
+theorem convOut_pos (x s : Int) (hs : 0 < s) (h : 0 < (x - 1) / s + 1) : 1 ≤ x := by
+  have : 0 ≤ (x - 1) / s := by omega
+  have := (Int.ediv_nonneg_iff_of_pos hs).mp this
+  omega
+
+theorem im2col_agrees (s : Shape) (kernel dil pad stride : List Int) (out : Shape)
+    (h : im2col.spec s kernel dil pad stride = some out) : im2col.model s kernel dil pad stride = some out := by
+  unfold im2col.spec at h
+  unfold im2col.model
+  dsimp only at h ⊢
+  by_cases hc : s.length ≠ 4 ∨ kernel.length ≠ 2 ∨ dil.length ≠ 2 ∨ pad.length ≠ 2 ∨ stride.length ≠ 2
+  · rw [if_pos hc] at h; cases h
+  · rw [if_neg hc] at h ⊢
+    by_cases hst : stride.any (· ≤ 0) = true
+    · rw [if_pos hst] at h; cases h
+    · rw [if_neg hst] at h
+      have hpos : ∀ i, i < 2 → 0 < getI stride i := by
+        intro i hi
+        have hlen : stride.length = 2 := by omega
+        have hall : ∀ x ∈ stride, ¬ x ≤ 0 := by
+          intro x hx
+          have := hst
+          simp only [List.any_eq_true, not_exists, not_and, decide_eq_true_eq] at this
+          exact this x hx
+        unfold getI
+        have hi' : i < stride.length := by omega
+        rw [List.getD_eq_getElem?_getD, List.getElem?_eq_getElem hi']
+        have := hall stride[i] (List.getElem_mem hi')
+        simp; omega
+      simp only [show List.range 2 = [0, 1] from rfl, List.map_cons, List.map_nil, List.any_cons, List.any_nil, Bool.or_false] at h ⊢
+      by_cases hl : (decide (torchConvOut ((s.getD (0 + 2) 0 : Nat) : Int) (getI kernel 0) (getI stride 0) (getI pad 0) (getI dil 0) ≤ 0)
+          || decide (torchConvOut ((s.getD (1 + 2) 0 : Nat) : Int) (getI kernel 1) (getI stride 1) (getI pad 1) (getI dil 1) ≤ 0)) = true
+      · rw [if_pos hl] at h; cases h
+      · rw [if_neg hl] at h
+        simp only [Bool.or_eq_true, decide_eq_true_eq, not_or, Int.not_le] at hl
+        obtain ⟨p0, p1⟩ := hl
+        have q0 := convOut_pos _ _ (hpos 0 (by omega)) (by unfold torchConvOut at p0; exact p0)
+        have q1 := convOut_pos _ _ (hpos 1 (by omega)) (by unfold torchConvOut at p1; exact p1)
+        have b0 := im2col_blocks_agree ((s.getD (0 + 2) 0 : Nat) : Int) (getI kernel 0) (getI stride 0) (getI pad 0) (getI dil 0) (hpos 0 (by omega)) (by omega)
+        have b1 := im2col_blocks_agree ((s.getD (1 + 2) 0 : Nat) : Int) (getI kernel 1) (getI stride 1) (getI pad 1) (getI dil 1) (hpos 1 (by omega)) (by omega)
+        have n0 : ¬ (im2col.blocksModel ((s.getD (0 + 2) 0 : Nat) : Int) (getI kernel 0) (getI stride 0) (getI pad 0) (getI dil 0) = 0) := by omega
+        have n1 : ¬ (im2col.blocksModel ((s.getD (1 + 2) 0 : Nat) : Int) (getI kernel 1) (getI stride 1) (getI pad 1) (getI dil 1) = 0) := by omega
+        simp only [n0, n1, decide_false, Bool.or_self, Bool.false_eq_true, if_false, List.getD_cons_zero, List.getD_cons_succ]
+        rw [← h]
+        simp only [getI, List.getD_cons_zero, List.getD_cons_succ, Option.some.injEq, List.cons.injEq, true_and, and_true]
+        unfold getI at b0 b1
+        rw [← b0, ← b1, ← Int.natCast_mul, Int.toNat_natCast]
+
+end attr2
+
+theorem select_scatter_agrees (s src : Shape) (dim index : Int) (out : Shape)
+    (h : select_scatter.spec s src dim index = some out) : select_scatter.model s src dim index = some out := by
+  unfold select_scatter.spec select.spec at h
+  by_cases hr : s.length = 0
+  · simp [hr] at h
+  · simp only [hr, if_false] at h
+    cases ha : normAxis s.length dim with
+    | none => simp [ha] at h
+    | some a =>
+      simp only [ha] at h
+      by_cases hidx : -((s.getD a 0 : Nat) : Int) ≤ index ∧ index < ((s.getD a 0 : Nat) : Int)
+      · rw [if_pos hidx] at h
+        simp only at h
+        by_cases heq : (s.take a ++ s.drop (a + 1) == src) = true
+        · rw [if_pos heq] at h
+          have hsrc : src = s.take a ++ s.drop (a + 1) := by
+            have := heq; simp only [beq_iff_eq] at this; exact this.symm
+          injection h with h; subst h
+          obtain ⟨_, _, halt⟩ := normAxis_some s.length dim a ha
+          have hsl : src.length + 1 = s.length := by
+            rw [hsrc]; simp; omega
+          unfold select_scatter.model unsqueeze1
+          rw [hsl, ha]
+          simp only [Option.map_some]
+          have hu : insertOne src a = s.take a ++ 1 :: s.drop (a + 1) := by
+            unfold insertOne
+            rw [hsrc]
+            have h1 : (s.take a).length = a := by simp; omega
+            rw [List.take_append_of_le_length (by omega), List.drop_append_of_le_length (by omega)]
+            simp [h1, List.take_of_length_le, List.drop_of_length_le]
+          rw [hu]
+          have hlen : (s.take a ++ 1 :: s.drop (a + 1)).length = s.length := by simp; omega
+          have hd1 : 1 ≤ s.getD a 0 := by omega
+          have hcond : ¬ ((s.take a ++ 1 :: s.drop (a + 1)).length ≠ s.length ∨
+              ¬ (-((s.getD a 0 : Nat) : Int) ≤ index ∧ index < ((s.getD a 0 : Nat) : Int))) := by
+            rw [hlen]; simp; exact hidx
+          rw [if_neg hcond]
+          have hall : (List.range s.length).all (fun i => decide ((s.take a ++ 1 :: s.drop (a + 1)).getD i 0 ≤ s.getD i 0)) = true := by
+            rw [List.all_eq_true]
+            intro i hi
+            have hi' : i < s.length := by simpa using hi
+            simp only [decide_eq_true_eq]
+            have h1 : (s.take a).length = a := by simp; omega
+            by_cases hia : i < a
+            · rw [List.getD_eq_getElem?_getD, List.getElem?_append_left (by omega)]
+              simp [List.getD_eq_getElem?_getD, List.getElem?_take, hia]
+            · rw [List.getD_eq_getElem?_getD, List.getElem?_append_right (by omega), h1]
+              by_cases hie : i = a
+              · subst hie; simpa using hd1
+              · have : i - a = (i - a - 1) + 1 := by omega
+                rw [this, List.getElem?_cons_succ, List.getElem?_drop]
+                have e : a + 1 + (i - a - 1) = i := by omega
+                rw [e]; simp [List.getD_eq_getElem?_getD]
+          rw [if_pos hall]
+        · rw [if_neg heq] at h; cases h
+      · rw [if_neg hidx] at h; cases h
+
+
+/-! ## repeat_interleave (static path, fix 2309579) -/
+
+theorem ri_final_eq (st : Shape) (pos : Nat) (reps : Int) (h : 0 ≤ reps) :
+    repeat_interleave.final st pos reps
+      = (st.take pos ++ [st.getD pos 0 * reps.toNat] ++ st.drop (pos + 1)).map (Int.ofNat ·) := by
+  unfold repeat_interleave.final
+  simp only [List.map_append, List.map_cons, List.map_nil]
+  congr 2
+  have : (reps.toNat : Int) = reps := Int.toNat_of_nonneg h
+  simp [Int.natCast_mul, this]
+
+theorem ri_numel (x : Shape) (pos k : Nat) (h : pos < x.length) :
+    numel (x.take pos ++ [x.getD pos 0 * k] ++ x.drop (pos + 1)) = numel (x.take (pos + 1) ++ [k] ++ x.drop (pos + 1)) := by
+  have ht : x.take (pos + 1) = x.take pos ++ [x.getD pos 0] := by
+    rw [List.take_add_one]; simp [List.getD, List.getElem?_eq_getElem h]
+  rw [ht]
+  simp only [numel_append, numel_singleton, Nat.mul_assoc]
+
+theorem ri_core (x : Shape) (pos : Nat) (reps : Int) (h : 0 ≤ reps) (hp : pos < x.length) :
+    reshape true (x.take (pos + 1) ++ [reps.toNat] ++ x.drop (pos + 1)) (repeat_interleave.final x pos reps)
+      = some (x.take pos ++ [x.getD pos 0 * reps.toNat] ++ x.drop (pos + 1)) := by
+  rw [ri_final_eq x pos reps h]
+  exact reshape_static _ _ (ri_numel x pos reps.toNat hp)
+
+theorem repeat_interleave_agrees (s : Shape) (reps : Int) (dim : Option Int) (out : Shape)
+    (h : repeat_interleave.spec s reps dim = some out) : repeat_interleave.model s reps dim = some out := by
+  unfold repeat_interleave.spec at h
+  split at h
+  · simp at h
+  · next hneg =>
+    have h0 : 0 ≤ reps := by omega
+    unfold repeat_interleave.model
+    cases dim with
+    | none =>
+      simp only at h
+      injection h with h; subst h
+      simp only [reshape_flat, repeat_interleave.staticShape]
+      have hp : repeat_interleave.posDim 1 none = 0 := by decide
+      simp only [List.length_singleton, Nat.one_ne_zero, if_false, hneg, hp]
+      have := ri_core [numel s] 0 reps h0 (by simp)
+      simpa using this
+    | some d =>
+      simp only at h
+      split at h
+      · simp at h
+      · next a ha =>
+        split at h
+        · simp at h
+        next hne =>
+        injection h with h; subst h
+        unfold torchDim at ha
+        simp only [hne, if_false] at ha
+        obtain ⟨h1, h2, h3⟩ := normAxis_some _ _ _ ha
+        have hp : repeat_interleave.posDim s.length (some d) = a := by
+          unfold repeat_interleave.posDim
+          simp only [Option.getD_some]
+          split at h2
+          · next hd => 
+            have : (d + (s.length : Int)) % (s.length : Int) = d + s.length := Int.emod_eq_of_lt (by omega) (by omega)
+            rw [this]; omega
+          · next hd =>
+            have : (d + (s.length : Int)) % (s.length : Int) = d := by
+              rw [Int.add_emod_right]; exact Int.emod_eq_of_lt (by omega) (by omega)
+            rw [this]; omega
+        simp only [hne, if_false, hneg, hp, repeat_interleave.staticShape]
+        rw [ri_core s a reps h0 h3]
+        congr 1
+        unfold setAt
+        rw [List.set_eq_take_append_cons_drop]
+        simp [h3]
+
+/-! ## roll after fix cb8a6fb, all.dims on rank 0 after fix f89de7f -/
+
+theorem clampI_zero (x : Int) : clampI x 0 0 = 0 := by
+  unfold clampI
+  simp only [Int.min_def, Int.max_def]
+  (repeat' split) <;> omega
+
+theorem roll_len_zero (big : Nat) (shift : Int) : (roll.stepIdx 0 big shift).length = 0 := by
+  unfold roll.stepIdx
+  rw [List.length_append, sliceIdx_length, sliceIdx_length]
+  have z : ((0:Nat):Int) = 0 := rfl
+  rw [z]
+  have e1 := sliceLen_one 0 (if shift < 0 then -shift else 0 - shift) big
+  have e2 := sliceLen_one 0 0 (if shift < 0 then -shift else 0 - shift)
+  rw [clampI_zero, clampI_zero] at e1 e2
+  simp only [Int.sub_self, Int.max_self] at e1 e2
+  omega
+
+/-- after fix cb8a6fb (slice end INT64_MAX): one `(shift, dim)` step keeps the shape for every axis size, 0 included. -/
+theorem roll_shape_agrees (s : Shape) (shift dim : Int) (out : Shape)
+    (hb : ∀ x ∈ s, x ≤ INT64_MAX.toNat)
+    (h : roll.spec s [shift] [dim] = some out) : roll.model s [shift] [dim] = some out := by
+  unfold roll.spec at h
+  simp only [List.isEmpty_cons, Bool.false_eq_true, if_false, List.length_cons, List.length_nil, ne_eq, not_true_eq_false] at h
+  cases ha : torchDim s.length dim with
+  | none => simp [ha] at h
+  | some a =>
+    simp [ha] at h
+    subst h
+    by_cases h0 : s.length = 0
+    · unfold roll.model; simp [h0]
+    · by_cases hz : s.getD 0 0 = 0
+      · unfold roll.model; simp only [h0, hz, if_false, if_true]
+      · have han : normAxis s.length dim = some a := by unfold torchDim at ha; simpa [h0] using ha
+        apply roll_shape_one s shift dim a h0 hz han
+        obtain ⟨_, _, h3⟩ := normAxis_some _ _ _ han
+        have hbd : s.getD a 0 ≤ INT64_MAX.toNat := by
+          have : s.getD a 0 = s[a] := by simp [List.getD_eq_getElem?_getD, List.getElem?_eq_getElem h3]
+          rw [this]; exact hb _ (List.getElem_mem h3)
+        by_cases hd : 0 < s.getD a 0
+        · unfold roll.redShift
+          simp only [gt_iff_lt, hd, if_true]
+          have hpos : (0:Int) < (s.getD a 0 : Nat) := by omega
+          have m1 := Int.emod_nonneg shift (show ((s.getD a 0 : Nat) : Int) ≠ 0 by omega)
+          have m2 := Int.emod_lt_of_pos shift hpos
+          exact roll_len _ _ _ hbd (by omega) (by omega)
+        · have : s.getD a 0 = 0 := by omega
+          rw [this]
+          exact roll_len_zero _ _
+
+theorem all_dims_rank0 (ds : List Int) (keep : Bool) (out : Shape) (hne : ds ≠ [])
+    (h : torchReduce [] ds keep = some out) : all_dims.model [] (some ds) keep = some out := by
+  have ho := torchReduce_rank0 ds keep out h
+  subst ho
+  unfold torchReduce at h
+  cases hm : ds.mapM (torchDim ([] : Shape).length) with
+  | none => rw [hm] at h; simp at h
+  | some ax =>
+    have aux : ∀ (l : List Int) (q : List Nat), l.mapM (torchDim 0) = some q →
+        l.foldlM (fun acc d => reduceDyn acc [d] true) ([] : Shape) = some [] := by
+      intro l
+      induction l with
+      | nil => intro q _; rfl
+      | cons t ts ih =>
+        intro q hq
+        rw [List.mapM_cons] at hq
+        cases h1 : torchDim 0 t with
+        | none => simp [h1] at hq
+        | some k =>
+          cases h2 : ts.mapM (torchDim 0) with
+          | none => simp [h1, h2] at hq
+          | some q' =>
+            rw [List.foldlM_cons]
+            have ht : t = 0 ∨ t = -1 := by
+              unfold torchDim at h1
+              simp only [if_true] at h1
+              obtain ⟨a1, a2, a3⟩ := normAxis_some _ _ _ h1
+              split at a1 <;> omega
+            have : reduceDyn [] [t] true = some [] := by
+              unfold reduceDyn
+              rcases ht with rfl | rfl <;> simp
+            simp only [this, bind, Option.bind]
+            exact ih q' h2
+    unfold all_dims.model
+    cases ds with
+    | nil => exact absurd rfl hne
+    | cons d ds' =>
+      simp only [aux (d :: ds') ax hm, List.length_nil, or_true, if_true]
 
 end OV.Lemmas.C08
